@@ -371,6 +371,14 @@ class RefServer:
     # -- handlers
     def handle(self, verb, args):
         f = self.fault_for(verb)
+        if f == "DROP-REPLY":
+            # the command IS executed, only its reply is lost on the way (the client times out; the connection stays usable)
+            keep = self.out
+            h = getattr(self, "do_" + verb, None)
+            if h is not None and (verb not in SCRIPT_VERBS or self.authenticated):
+                h(args)
+            self.out = keep
+            return
         if f:
             return self.apply_fault(f)
         if self.silent:
